@@ -97,6 +97,39 @@ func outside(b, h []lex.Token, eff string) string {
 	return ""
 }
 
+// compareSlot: b is the statement list for a harmless number in the slot, h the one for the hostile string. Every
+// statement must lex to completion and have the tokens of b, with one string or number token where b has the number.
+func compareSlot(b, h []lexed, num string) verdict {
+	for i, st := range h {
+		for _, t := range st.toks {
+			if t.Kind.Unterminated() {
+				return verdict{rule: ruleUnterminated, stmt: i, detail: fmt.Sprintf("statement %d does not lex to completion: %s token starting at byte %d: %q", i, t.Kind, t.Pos, clip(t.Text, 160))}
+			}
+		}
+	}
+	if len(b) != len(h) {
+		return verdict{rule: ruleStructure, stmt: min(len(h), len(b)), detail: fmt.Sprintf("%d statements for the hostile string, %d for a harmless number in its place", len(h), len(b))}
+	}
+	for i := range b {
+		bt, ht := b[i].toks, h[i].toks
+		if len(bt) != len(ht) {
+			return verdict{rule: ruleStructure, stmt: i, detail: fmt.Sprintf("statement %d has %d tokens for the hostile string, %d for a harmless number in its place", i, len(ht), len(bt))}
+		}
+		for k := range bt {
+			if bt[k].Text == num && bt[k].Kind != lex.String {
+				if ht[k].Kind != lex.String && ht[k].Kind != bt[k].Kind {
+					return verdict{rule: ruleStructure, stmt: i, detail: fmt.Sprintf("statement %d token %d is %s %q where a harmless number gives %s %q", i, k, ht[k].Kind, clip(ht[k].Text, 80), bt[k].Kind, bt[k].Text)}
+				}
+				continue
+			}
+			if bt[k].Kind != ht[k].Kind || bt[k].Text != ht[k].Text {
+				return verdict{rule: ruleStructure, stmt: i, detail: fmt.Sprintf("statement %d token %d is %s %q for the hostile string, %s %q for a harmless number in its place", i, k, ht[k].Kind, clip(ht[k].Text, 80), bt[k].Kind, clip(bt[k].Text, 80))}
+			}
+		}
+	}
+	return verdict{reached: true}
+}
+
 func decodeBoth(tok string) (a1, server []byte, err error) {
 	a1, err = lex.DecodeString(tok)
 	if err != nil {
